@@ -96,7 +96,7 @@ verif_harness! {
     }
 }
 
-//@ harness name=idea_new_w prop=C09 tier=quick bits=128 stub=1 est=20 desc="W: Idea::new(key) has enc_keys == oracle schedule and dec_keys == oracle inversion of it, all 2^128 keys, mul_inv uninterpreted"
+//@ harness name=idea_new_w prop=C09 tier=quick bits=128 stub=1 est=15 desc="W: Idea::new(key) has enc_keys == oracle schedule and dec_keys == oracle inversion of it, all 2^128 keys, mul_inv uninterpreted"
 verif_harness! {
     name: idea_new_w,
     bytes: 16,
@@ -128,7 +128,7 @@ fn arb_state(inp: &[u8; 216]) -> (Idea, [u8; 8]) {
     (c, take(inp, 208))
 }
 
-//@ harness name=idea_crypt_w_enc prop=C09,C20 tier=quick bits=896 stub=1 est=65 desc="W: encrypt_block on arbitrary sub-key arrays == 8 rounds + output transformation of the specification with enc_keys, all blocks, mul uninterpreted and shared with the oracle (add is real)"
+//@ harness name=idea_crypt_w_enc prop=C09,C20 tier=quick bits=896 stub=1 est=55 desc="W: encrypt_block on arbitrary sub-key arrays == 8 rounds + output transformation of the specification with enc_keys, all blocks, mul uninterpreted and shared with the oracle (add is real)"
 verif_harness! {
     name: idea_crypt_w_enc,
     bytes: 216,
@@ -142,7 +142,7 @@ verif_harness! {
     }
 }
 
-//@ harness name=idea_crypt_w_dec prop=C09,C20 tier=quick bits=896 stub=1 est=55 desc="W: decrypt_block on arbitrary sub-key arrays == the same data path with dec_keys, all blocks, mul uninterpreted"
+//@ harness name=idea_crypt_w_dec prop=C09,C20 tier=quick bits=896 stub=1 est=60 desc="W: decrypt_block on arbitrary sub-key arrays == the same data path with dec_keys, all blocks, mul uninterpreted"
 verif_harness! {
     name: idea_crypt_w_dec,
     bytes: 216,
